@@ -60,7 +60,8 @@ ShapeName(sh) == "bf_c" \o ToString(sh.ctx) \o "_f" \o ToString(sh.nf) \o "_v" \
 LispName(sh) == "bf-c" \o ToString(sh.ctx) \o "-f" \o ToString(sh.nf) \o "-v" \o ToString(sh.var) \o
                 "-r" \o ToString(sh.nres) \o "-" \o Typings[sh.ty]
 
-Modes == <<"ok", "err", "panic-err", "panic-str">>
+\* panic-lisperr: the function panics with a value that is ALREADY a lisp error (wrapping the sentinel)
+Modes == <<"ok", "err", "panic-err", "panic-str", "panic-lisperr">>
 Routes == IF Full THEN {<<"call", "dotted">>, <<"call", "dotless">>, <<"override", "dotted">>, <<"override", "dotless">>}
           ELSE {<<"call", "dotted">>, <<"override", "dotless">>}
 
@@ -72,7 +73,7 @@ Init == /\ ph = 0 /\ sh \in Shapes
         /\ b \in (IF sh.var = 1 THEN 1..Len(Bounds) ELSE {1})
         /\ n \in 0..5 /\ pat \in 1..7 /\ (n = 0 => pat = 1)
         /\ route \in Routes
-        /\ mode \in (IF pat = 1 /\ route[1] = "call" /\ route[2] = "dotted" THEN 1..4 ELSE {1})
+        /\ mode \in (IF pat = 1 /\ route[1] = "call" /\ route[2] = "dotted" THEN 1..5 ELSE {1})
         /\ ctxend \in {0, 1} /\ (ctxend = 1 => n >= 1 /\ pat = 2 /\ mode = 1)
 
 Next == /\ ph = 0 /\ ph' = 1 /\ UNCHANGED <<sh, b, pat, n, mode, route, ctxend>>
@@ -85,6 +86,7 @@ Next == /\ ph = 0 /\ ph' = 1 /\ UNCHANGED <<sh, b, pat, n, mode, route, ctxend>>
                         [] md = "err" -> (IF sh.nres = 0 THEN "nil" ELSE "returned-error")
                         [] md = "panic-err" -> "panic-error"
                         [] md = "panic-str" -> "panic-value"
+                        [] md = "panic-lisperr" -> "panic-error"
                c == [kind |-> "binder", tag |-> Typings[sh.ty], fn |-> ShapeName(sh),
                      name |-> IF route[1] = "call" THEN LispName(sh) ELSE "ovr-" \o LispName(sh),
                      entry |-> route[1], path |-> route[2], bounds |-> bounds, args |-> args, mode |-> md,
